@@ -545,7 +545,7 @@ pub fn h_history(ops: &[u8], hb: u32) {
         vassert!([C04, C07], c.len() <= 2, "more entries than distinct keys");
         i += 1;
     }
-    vcover!(c.len() == 2, "history: two entries held at the end");
+    vcover!(if ops[ops.len() - 1] != 1, c.len() == 2, "history: two entries held at the end");
     vcover!(c.len() == 0, "history: empty at the end");
     std::mem::forget(c);
     vend!();
